@@ -30,8 +30,9 @@ fn finish(w: &mut World, cfg: RunCfg, ops: Vec<Op>, stop: Option<Stop>) -> RunRe
     }
     *stats.entry("seam.par_loops_permuted".into()).or_insert(0) += crate::seam::loops_permuted();
     let mut fd = 0u64;
+    *stats.entry("seam.par_loops_on_workers".into()).or_insert(0) += crate::sched::loops_on_workers();
     for i in 0..w.replicas.len() {
-        if w.replicas[i].live.is_some() {
+        if w.replicas[i].live.is_some() && (stop.is_none() || !cfg!(feature = "sched")) {
             if let Ok(d) = crate::api::digest(w.replicas[i].live.as_ref().unwrap()) {
                 fd = fd.rotate_left(7) ^ crate::rng::fnv64(d.to_string().as_bytes());
             }
@@ -55,6 +56,61 @@ fn finish(w: &mut World, cfg: RunCfg, ops: Vec<Op>, stop: Option<Stop>) -> RunRe
 
 /// Generates and executes one run; the recorded ops are concrete.
 pub fn generate(prop: &str, run_seed: u64) -> RunResult {
+    if cfg!(feature = "sched") {
+        let (cfg, _) = gen::make_cfg(prop, run_seed);
+        let log: std::sync::Arc<std::sync::Mutex<Vec<Op>>> = std::sync::Arc::new(std::sync::Mutex::new(vec![]));
+        let (log2, prop2) = (log.clone(), prop.to_string());
+        let r = crate::sched::in_shuttle(sched_seed(&cfg), cfg.pool, move || generate_inner(&prop2, run_seed, Some(log2.clone())));
+        return post_outside(wrap_sched(r, cfg, log));
+    }
+    generate_inner(prop, run_seed, None)
+}
+
+/// sched flavour: the checks over the recorded history run outside the run's own shuttle
+/// execution (each re-execution they make is an execution of its own).
+fn post_outside(mut r: RunResult) -> RunResult {
+    if r.violation.is_some() || r.inconclusive.is_some() {
+        return r;
+    }
+    let mut w0 = World::new_empty(r.cfg.clone());
+    w0.step = r.steps;
+    let res = crate::post::after_run(&mut w0, &r.ops);
+    for (k, v) in w0.stats.take() {
+        *r.stats.entry(k).or_insert(0) += v;
+    }
+    match res {
+        Err(Stop::Violation(v)) => r.violation = Some(v),
+        Err(Stop::Inconclusive(s)) => r.inconclusive = Some(s),
+        Ok(()) => {}
+    }
+    r
+}
+
+pub fn sched_seed(cfg: &RunCfg) -> u64 {
+    cfg.seed ^ cfg.order_seed.rotate_left(13)
+}
+
+/// The runner itself failed (deadlock, step overrun, panic on a simulated worker): turn it into a
+/// result whose violation names the op that was executing.
+fn wrap_sched(r: Result<RunResult, crate::api::Crash>, cfg: RunCfg, log: std::sync::Arc<std::sync::Mutex<Vec<Op>>>) -> RunResult {
+    match r {
+        Ok(r) => r,
+        Err(c) => {
+            let ops = log.lock().unwrap().clone();
+            let step = crate::sched::CURRENT_STEP.load(std::sync::atomic::Ordering::SeqCst);
+            let opname = ops.get(step.saturating_sub(1)).map(|o| o.name()).unwrap_or("?");
+            let mut w0 = World::new_empty(cfg.clone());
+            let stop = if cfg.prop == "C08" {
+                Stop::Violation(Violation { prop: cfg.prop.clone(), check: "returns".into(), class: format!("{}:{}", c.class().split('@').next().unwrap_or("hang"), opname), step, detail: format!("{} (op #{}) did not return under simulated pool size {}: {}", opname, step, cfg.pool, c.text()) })
+            } else {
+                Stop::Inconclusive(format!("{}:{} [{}]", c.class(), opname, c.text()))
+            };
+            finish(&mut w0, cfg, ops, Some(stop))
+        }
+    }
+}
+
+fn generate_inner(prop: &str, run_seed: u64, log: Option<std::sync::Arc<std::sync::Mutex<Vec<Op>>>>) -> RunResult {
     let (cfg, mut g) = gen::make_cfg(prop, run_seed);
     let mut w = match World::new(cfg.clone()) {
         Ok(w) => w,
@@ -72,6 +128,9 @@ pub fn generate(prop: &str, run_seed: u64) -> RunResult {
         }
         for op in batch {
             ops.push(op.clone());
+            if let Some(l) = &log {
+                l.lock().unwrap().push(op.clone());
+            }
             if let Err(s) = w.exec(&op) {
                 stop = Some(s);
                 break 'outer;
@@ -81,7 +140,7 @@ pub fn generate(prop: &str, run_seed: u64) -> RunResult {
             }
         }
     }
-    if stop.is_none() {
+    if stop.is_none() && !cfg!(feature = "sched") {
         if let Err(s) = crate::post::after_run(&mut w, &ops) {
             stop = Some(s);
         }
@@ -91,6 +150,16 @@ pub fn generate(prop: &str, run_seed: u64) -> RunResult {
 
 /// Executes a recorded op list (replay, shrinking candidates).
 pub fn replay(cfg: &RunCfg, ops: &[Op]) -> RunResult {
+    if cfg!(feature = "sched") {
+        let log = std::sync::Arc::new(std::sync::Mutex::new(ops.to_vec()));
+        let (c2, o2) = (cfg.clone(), ops.to_vec());
+        let r = crate::sched::in_shuttle(sched_seed(cfg), cfg.pool, move || replay_inner(&c2, &o2));
+        return post_outside(wrap_sched(r, cfg.clone(), log));
+    }
+    replay_inner(cfg, ops)
+}
+
+fn replay_inner(cfg: &RunCfg, ops: &[Op]) -> RunResult {
     let mut w = match World::new(cfg.clone()) {
         Ok(w) => w,
         Err(s) => {
@@ -105,7 +174,7 @@ pub fn replay(cfg: &RunCfg, ops: &[Op]) -> RunResult {
             break;
         }
     }
-    if stop.is_none() {
+    if stop.is_none() && !cfg!(feature = "sched") {
         if let Err(s) = crate::post::after_run(&mut w, ops) {
             stop = Some(s);
         }
